@@ -11,8 +11,8 @@ def encode(c, enc):
     return tgops.encode(c, enc) if is_tg(c) else tierops.encode(c, enc)
 
 
-def impl(c):
-    return tgops.impl(c) if is_tg(c) else tierops.impl(c)
+def impl(c, objs=None):
+    return tgops.impl(c, objs) if is_tg(c) else tierops.impl(c, objs)
 
 
 def render(c, r, enc):
